@@ -2,6 +2,7 @@
 From Coq Require Import List String Arith Bool Sorted Permutation ZArith.
 From Verif Require Import Gen.StatusClass Gen.ReqSites Model.C12_Retry Model.C12_Backoff Proofs.C12 Proofs.C12b.
 From Verif Require Model.C01_Resume Proofs.C01r.
+From Verif Require Import Model.C12_Reissue Proofs.C12c.
 Import ListNotations.
 
 (* whatever the registry answers (ANY reply sequence, any host set, any classification table): one logical
@@ -19,6 +20,14 @@ Theorem C12_resumed_read_attempts_bounded : forall (byte : Type) srv limit eager
   List.length l0 + List.length l <= limit + 1.
 Proof. exact C01r.resumed_read_attempts_bounded. Qed.
 Print Assumptions C12_resumed_read_attempts_bounded.
+
+(* ... and over mirrors: however many times the request is re-issued (each pass with any host list, order, position,
+   backoff counters and replies - hosts re-sorted, dropped or backing off in between), all passes of one logical request
+   together make at most retryLimit + 1 attempts *)
+Theorem C12_attempts_bounded_across_reissues : forall passes fuel limit ignore,
+  List.length (reissues fuel limit ignore 0 passes) <= limit + 1.
+Proof. intros. pose proof (reissues_bound passes fuel limit ignore 0). rewrite Nat.add_1_r, <- Nat.sub_0_r. exact H. Qed.
+Print Assumptions C12_attempts_bounded_across_reissues.
 
 (* the host loop terminates: retryLimit + 2 iterations always suffice *)
 Theorem C12_next_terminates : forall limit ignore nomirrors mirrors up replies,
